@@ -156,6 +156,7 @@ class Program:
                 name = "cutadapt." + fn[:-4]
                 self.sources[p] = src
                 self.pyx[name] = IModule(name, p, pyxfront.parse_pyx(src, fn[:-4]), src)
+        self.extra_files = set()   # harness-owned reference models that are executed by the same interpreter
         self.cfuncs = {}
         self.c_modules = {}
         for fn in sorted(os.listdir(self.pkg_dir)):
@@ -177,7 +178,13 @@ class Program:
             import sys
             src = open(path).read()
             self.sources[path] = src
-            name = "cutadapt." + os.path.basename(path)[:-3]
+            name = None
+            for k, mod in list(sys.modules.items()):
+                if getattr(mod, "__file__", None) and os.path.realpath(mod.__file__) == path:
+                    name = k
+                    break
+            if name is None:
+                name = "cutadapt." + os.path.basename(path)[:-3]
             live = sys.modules.get(name) or importlib.import_module(name)
             m = PyModule(name, path, ast.parse(src), src, live)
             self.py[path] = m
@@ -185,7 +192,8 @@ class Program:
 
     def in_package(self, filename):
         try:
-            return os.path.realpath(filename).startswith(os.path.realpath(self.pkg_dir) + os.sep)
+            rp = os.path.realpath(filename)
+            return rp.startswith(os.path.realpath(self.pkg_dir) + os.sep) or rp in self.extra_files
         except Exception:
             return False
 
